@@ -1,7 +1,10 @@
 SPECIFICATION GenSpec
 CONSTANTS FallbackMode = "last"
  FailFast = FALSE
+ CancelMode = "coded"
+ WaitMode = "none"
  MaxP = 3
  MaxB = 2
+ MaxDeaf = 2
 INVARIANTS Emit
 CHECK_DEADLOCK FALSE
